@@ -13,7 +13,7 @@ use chumsky::span::SimpleSpan;
 
 pub const ID: &str = "C20";
 
-pub const RULE: &str = "cases = (grammar, input, error type): the union of all grammar classes of this harness (well-formed by construction: repetition items consume, recursion guarded; features memoization / pratt / regex / extension on), with failing parsers wrapped in map_err / recover_with / labelled / memoized at high weight, built with each of Rich, Simple, Cheap and the zero-sized EmptyErr, on &str (alphabet symbols, derived sentences, empty and truncated inputs, and random strings over the full Unicode range incl. combining marks and 4-byte characters adjacent to backtracking points) and on &[u8] (ASCII-only grammars, arbitrary bytes), and on token trees with gapped spans (nested_in at arbitrary nodes, Rich and EmptyErr: a failing NESTED parse under the wrappers); a text sub-check runs every text::* parser, regex and the Graphemes input on random Unicode / byte strings. Oracle: the call returns -- no panic (caught and reported with its location), no abort / SIGSEGV / stack overflow (the whole check runs in a child process; a signal-killed child is a violation and is re-run single-threaded to pin the case), no watchdog expiry (inconclusive) -- and the result obeys the ParseResult contract (no output => >= 1 error, ...); every reported span lies inside the input with start <= end on char boundaries. Polynomial time, deterministic form: a counting inspector aborts a parse that consumes more than 64 x (reference node evaluations + input length + 16) tokens (the reference evaluates the same PEG with the same backtracking). Pratt: 120 long flat operator chains (up to 64 tight-then-weak alternations) and 20k / 300k random operator strings, two tables (tuple and Vec of boxed operators), parse and check, under the deterministic work bound tokens read <= 16 x (length + 2) x (operators + 2); C11's left-recursive family (incl. cycles through context providers) in a child process. NON-TRIVIAL = the parse failed or recovered inside a wrapper (map_err, recover_with, labelled, memoized, try_map, custom), or the input contains a multi-byte character, or is empty / truncated; distinct = distinct (sub-check, grammar, input).";
+pub const RULE: &str = "cases = (grammar, input, error type): the union of all grammar classes of this harness (well-formed by construction: repetition items consume, recursion guarded; features memoization / pratt / regex / extension on), with failing parsers wrapped in map_err / recover_with / labelled / memoized at high weight, built with each of Rich, Simple, Cheap and the zero-sized EmptyErr, on &str (alphabet symbols, derived sentences, empty and truncated inputs, and random strings over the full Unicode range incl. combining marks and 4-byte characters adjacent to backtracking points) and on &[u8] (ASCII-only grammars, arbitrary bytes), and on token trees with gapped spans (nested_in at arbitrary nodes, Rich and EmptyErr: a failing NESTED parse under the wrappers); a text sub-check runs every text::* parser, regex and the Graphemes input on random Unicode / byte strings. Oracle: the call returns -- no panic (caught and reported with its location), no abort / SIGSEGV / stack overflow (the whole check runs in a child process; a signal-killed child is a violation and is re-run single-threaded to pin the case), no watchdog expiry (inconclusive) -- and the result obeys the ParseResult contract (no output => >= 1 error, ...); every reported span lies inside the input with start <= end on char boundaries. Polynomial time, deterministic form: a counting inspector aborts a parse that consumes more than 64 x (reference node evaluations + input length + 16) tokens (the reference evaluates the same PEG with the same backtracking). Pratt: 120 long flat operator chains (up to 64 tight-then-weak alternations) and 20k / 300k random operator strings, two tables (tuple and Vec of boxed operators), parse and check, under the deterministic work bound tokens read <= 16 x (length + 2) x (operators + 2); C11's left-recursive family (incl. cycles through context providers) in a child process. Recursive grammars are built in all three styles (recursive(), declare / define, declaring handle dropped), inside the panic guard; byte-oriented regex patterns, if accepted at all, on multi-byte text. NON-TRIVIAL = the parse failed or recovered inside a wrapper (map_err, recover_with, labelled, memoized, try_map, custom), or the input contains a multi-byte character, or is empty / truncated; distinct = distinct (sub-check, grammar, input).";
 
 pub const ASSUMPTIONS: &[&str] = &[
     "a panic raised by the library's own progress assertions on an ill-formed grammar would be by design; generators only produce grammars whose repetition items consume input",
